@@ -177,7 +177,7 @@ def rule_e(ctx):
     he = ctx.pfn('Endpoint::handle_event')
     tr = he.calls_to('Slab::try_remove')
     rm = he.calls_to('ConnectionIndex::remove')
-    ok = bool(tr) and bool(rm) and all(any(contains_site(arg_desc(F, r, 1), t) for t in tr) for r in rm)
+    ok = bool(tr) and bool(rm) and all(any(contains_site(arg_desc(F, r, i), t) for t in tr for i in range(1, len(r.args))) for r in rm)
     ctx.check(ok, 'e', 'drained_forgets_connection', he, he.where(), 'connections.try_remove(ch) -> index.remove(&conn)', 'Drained no longer removes the connection from the slab and the routing index')
     rem = ctx.pfn('ConnectionIndex::remove')
     idx = F.adt('endpoint::ConnectionIndex')
@@ -228,6 +228,24 @@ def rule_f(ctx):
     for c in ft.calls_to('Connection::reset_idle_timeout'):
         brs = [br for br in branches(F, ft) if D.has_field(br.desc, 'permit_idle_reset') and ft.dominates(br.bb, c.bb)]
         ctx.check(bool(brs), 'f', 'send_restarts_idle_only_when_permitted', ft, c.where(), 'guarded by permit_idle_reset', 'sending restarts the idle timer unconditionally (a one-sided sender would never time out)')
+    # the permission is re-armed only by an authenticated packet from the peer and consumed by the next ack-eliciting send
+    n_true = n_false = 0
+    for w, v in store_values(ctx, 'connection::Connection', 'permit_idle_reset'):
+        r = F.root_of(w.body)
+        if v[0] != 'const':
+            ctx.bad('f', 'idle_reset_permission_writers/non_constant', r, w.where(), 'permit_idle_reset stored from a computed value: ' + D.render(v)[:120])
+            continue
+        truth = str(v[2]) in ('1', 'true')
+        if truth:
+            n_true += 1
+            ctx.check(r.short in ('Connection::on_packet_authenticated', 'Connection::new'), 'f', 'idle_reset_permission_rearmed_only_by_peer_packet', r, w.where(), 'permit_idle_reset = true in %s' % r.short,
+                      'permit_idle_reset is re-armed in %s without an authenticated packet from the peer (own sends would keep a dead connection alive)' % r.short)
+        else:
+            n_false += 1
+            ctx.check(r.short == 'PacketBuilder::finish_and_track', 'f', 'idle_reset_permission_consumed_by_send', r, w.where(), 'permit_idle_reset = false in %s' % r.short, 'unexpected writer %s' % r.short)
+    ctx.floor('f', 'idle_reset_permission_true_stores', n_true, 1)
+    ctx.floor('f', 'idle_reset_permission_false_stores', n_false, 1)
+    who_may_write(ctx, 'f', 'idle_reset_permission_writers', 'connection::Connection', 'permit_idle_reset', ['Connection::on_packet_authenticated', 'Connection::new', 'PacketBuilder::finish_and_track'], floor=2)
 
 
 def rule_g(ctx):
